@@ -154,6 +154,23 @@ def _c20_extra(e, run, tier):
 
 
 PROPS = {
+    "C04": {
+        "pins": ["tokenizers.Tokenizer.extract_tokens", "tokenizers.HyperscanTokenizer.extract_tokens", "tokenizers.Tokenizer.append_text", "models.CitationToken.merge",
+                 "models.CitationBase.__post_init__", "models.ResourceCitation.__post_init__", "models.CitationToken.__post_init__", "helpers.get_court_by_paren",
+                 "utils.strip_punct", "utils.is_balanced_html", "utils.wrap_html_tags", "annotate.SpanUpdater.get_diff_steps", "annotate.SpanUpdater.get_diff_steps_builtin",
+                 "models.Document.__post_init__", "models.Document.tokenize"],
+        "contracts": ["a_common", "c18_helpers", "helpers", "find", "filter", "refs", "resolve", "annotate", "tokenizers"],
+        "functions": "ALL_NORAISE",
+        "assumptions": ["exception freedom is proved per function under the class/type invariants stated as preconditions (each asserted at the call sites that are under contract); "
+                        "MemoryError, RecursionError, KeyboardInterrupt are outside every noraise contract",
+                        "raise-sets of externals: re/regex search/match/finditer/sub on the shipped patterns: none; lxml.etree.fromstring: XMLSyntaxError only (caught); "
+                        "fast_diff_match_patch.diff: none; ahocorasick iter: none (non-empty automaton)",
+                        REGEX_LEMMAS, PART_ASSUMPTION, NONL_ASSUMPTION, CIT_WF, DEFAULT_RESOLVERS,
+                        "annotate_citations is proved for the documented domain (spans inside the text, annotator None, mode one of the three literals)"],
+        "not_covered": ["the collecting loop of find.get_citations, Tokenizer.tokenize (proved for C12 without the no-raise flag), extract_reference_citations / "
+                        "find_reference_citations_from_markup, Document.__post_init__, the Aho-Corasick and Hyperscan tokenizer bodies (generators / C libraries): bounded stand-in only",
+                        "the Hyperscan cache path (C14, not applicable)"],
+    },
     "C06": {
         "pins": ['utils.strip_punct', 'utils.hash_sha256'],
         "contracts": ["a_common", "resolve"],
